@@ -501,7 +501,7 @@ impl<const D: bool> SimShim<D> {
         results: QueryResultWriter<'_, SimStream>,
     ) -> Result<(), ShimErr> {
         let convert = self.w.borrow().convert_params;
-        let pull = self.w.borrow().peek_pull();
+        let (pull, skip) = self.w.borrow().peek_pull();
         let mut seen = Vec::new();
         // a shim may look at only some of its parameters (or none: an execution refused up
         // front); what it did not pull must not change what later executions see
@@ -510,7 +510,9 @@ impl<const D: bool> SimShim<D> {
                 drop(params);
                 Box::new(std::iter::empty())
             }
+            Some(k) if skip > 0 => Box::new(params.into_iter().skip(skip as usize).take(k as usize)),
             Some(k) => Box::new(params.into_iter().take(k as usize)),
+            None if skip > 0 => Box::new(params.into_iter().skip(skip as usize)),
             None => Box::new(params.into_iter()),
         };
         for p in it {
